@@ -272,7 +272,7 @@ def true_extent(d):
 
 class Check(PropertyCheck):
     id = 'C03'
-    lean_targets = ['RegionsVerif.Props.C03', 'RegionsVerif.Props.C03Area', 'RegionsVerif.Props.C03Ellipse', 'RegionsVerif.Props.C03Converge', 'RegionsVerif.Props.C03ConvergeConvex']
+    lean_targets = ['RegionsVerif.Props.C03', 'RegionsVerif.Props.C03Area', 'RegionsVerif.Props.C03Ellipse', 'RegionsVerif.Props.C03Converge', 'RegionsVerif.Props.C03ConvergeConvex', 'RegionsVerif.Props.C03ConvergePoly']
     namespaces = ['RegionsVerif.Props.C03', 'RegionsVerif.Props.C03E']
     rule = ('circles and ellipses with radii / semi-axes 1e-3..1e3 pixels, axis ratios to 1:100, all angles, generic and half-integer '
             'centres; whole to_mask(exact) grids with up to ~56 sampled pixels each (boundary, interior, exterior) and single pixels; '
